@@ -8,26 +8,36 @@ from . import jsliteral as J
 PID = "C12"
 PROPS_V = "theories/Props/Properties_C12.v"
 MODEL_NAME = "Html/Script.v"
-HARNESS = "ssr"
+HARNESS = "hyd"
 HARNESS_ARGS = ["c12"]
 ALLOWED_AXIOMS = []
 RUN_IMPORT = "Html.ScriptRun"
 READY = True
 
 RULE = ("cases drawn from one PRNG (VERIF_SEED). A case is a scripted session against a fresh real "
-        "SsrSharedContext (new / new_islands): next_id, set_is_hydrating, write_async(id, future), "
-        "register_error, seal_errors, set_incomplete_chunk, pending_data, complete-future-k, poll, errors(), "
-        "get_incomplete_chunk, and real Resource / OnceResource / SharedValue creation under an Owner with a codec for each "
-        "IntoEncodedString / FromEncodedStr impl (String: JsonSerdeCodec, FromToStringCodec; Vec<u8>/[u8], i.e. base64: "
-        "FromToBytesCodec); for each, the string the real codec hands over is logged and the real browser-side construction of "
-        "the same resource (initial_value / SharedValue under a hydrating SharedContext holding that string) must yield the value; the stream is then polled to its end, futures completing in the "
-        "order the case dictates. Kinds: payload (one adversarial string through write_async), error (one "
-        "adversarial error message, before or after pending_data), resource (one real resource per codec), "
-        "sized (payloads whose encoded length sits on the boundaries 0..10, 3k+-1, 1023..1025, 4095..4099, 8191..8194, "
-        "12286..12290, 16384, 20000, 24577 bytes, mostly through the binary encoding), "
-        "session (2-7 resources/errors/chunks, random completion order and interleaved polls, sealing), consume (several "
-        "futures leaving through SsrSharedContext::consume_buffers() under every kind of completion order), ids "
-        "(nested hydrated / non-hydrated regions in islands mode). Strings come from an adversarial alphabet "
+        "SsrSharedContext (new / new_islands / default, or the one leptos_integration_utils::build_response creates "
+        "together with its owner and its <script> wrapping, with and without a nonce): next_id, set_is_hydrating, "
+        "write_async(id, future), register_error, seal_errors, set_incomplete_chunk, pending_data, complete-future-k, poll, "
+        "errors(), take_errors(), await_deferred(), get_incomplete_chunk, real Resource / ArcResource / OnceResource / "
+        "ArcOnceResource / SharedValue creation under an Owner through new_with_options / new_with_encoding and through every "
+        "named constructor (new, new_str, new_miniserde, new_serde_lite, new_rkyv and their _blocking forms) with a codec for "
+        "each IntoEncodedString / FromEncodedStr impl (String: JsonSerdeCodec, FromToStringCodec, MiniserdeCodec, "
+        "SerdeLite<JsonSerdeCodec>; Vec<u8>/[u8], i.e. base64: FromToBytesCodec, RkyvCodec and an identity codec over "
+        "arbitrary bytes), and real <ErrorBoundary/> components (nested, with Ok / Err children whose messages are "
+        "adversarial and resources created among the children) rendered by to_html / in-order / out-of-order streaming; "
+        "for each resource the string the real codec hands over is logged and the real browser-side construction of "
+        "the same resource (Arc and arena flavour; initial_value / SharedValue under a hydrating SharedContext holding that "
+        "string, every other method answered by a real HydrateSharedContext) must yield the value; the stream is then polled to "
+        "its end (a fresh waker per poll), futures completing in the order the case dictates. Kinds: payload (one adversarial "
+        "string through write_async), error (one adversarial error message, before or after pending_data), resource (one real "
+        "resource per codec and constructor), sized (payloads whose encoded length sits on the boundaries 0..10, 3k+-1, "
+        "1023..1025, 4095..4099, 8191..8194, 12286..12290, 16384, 20000, 24577 bytes, mostly through the binary encodings, UTF-8 "
+        "and arbitrary bytes), session (2-7 resources/errors/chunks, random completion order and interleaved polls, sealing), "
+        "consume (several futures leaving through SsrSharedContext::consume_buffers() under every kind of completion order), "
+        "ids (nested hydrated / non-hydrated regions in islands mode), boundary (1-4 real <ErrorBoundary/> trees between other "
+        "id consumers, islands regions, errors after the stream started), response (sessions through build_response), wake "
+        "(a value completing after poll_next returned Pending must wake the waker of the latest poll; take_errors / "
+        "await_deferred in between), many (20-120 values in one response). Strings come from an adversarial alphabet "
         "(< > & \" ' / = ` NUL, <!--, -->, ]]>, </script, </title, </textarea, </style, <script, backslashes, "
         "\\u003c and other escape look-alikes, digits after NUL, CR/LF/U+2028/U+2029, DEL, combining marks, astral "
         "characters) plus random scalar values. Non-trivial = some string needs escaping or at least two "
@@ -35,29 +45,40 @@ RULE = ("cases drawn from one PRNG (VERIF_SEED). A case is a scripted session ag
 TRUSTED = [
     "Coq 8.16.1 kernel (coqc); no axioms: every theorem of Properties_C12.v is 'Closed under the global context'",
     "extraction to OCaml with ExtrOcamlBasic only, ocamlfind ocamlopt 4.13.1, extract/driver.ml sexp I/O",
-    "harness/ssr/src/c12.rs (Rust): gate futures, a FIFO single-thread executor installed with "
-    "Executor::init_local_custom_executor, manual polling of the pending_data() stream with a no-op waker",
+    "harness/hyd (h_hyd; src/c12.rs is the file harness/ssr/src/c12.rs): gate futures, a FIFO single-thread executor installed "
+    "with Executor::init_local_custom_executor, manual polling of the pending_data() stream with a flag waker per poll, a "
+    "pass-through SharedContext around the real SsrSharedContext that records what next_id returned (so that the ids "
+    "<ErrorBoundary/> and throw consume inside leptos are known)",
     "modelled, not verified: Rust's char::escape_debug Unicode tables (Grapheme_Extend / printable) enter the model "
     "as the per-case list of code points the real formatter writes as \\u{..}; the list is obtained from real Rust "
-    "(h_ssr c12 op 0) at generation time and every theorem holds for an arbitrary such predicate",
-    "modelled, not verified: serde_json's string escaping, FromToStringCodec and FromToBytesCodec<String> (Script.json_string / "
-    "encode), compared with the real codecs on every resource case; the base64 engine (STANDARD_NO_PAD) is builder C13's model "
-    "ServerFn.ErrorCodec.b64_encode/b64_decode (imported, with its round-trip proof), here compared with the real engine through "
-    "IntoEncodedString for Vec<u8> on every binary-codec case incl. all block-size boundaries",
+    "(h_hyd c12 op 0) at generation time and every theorem holds for an arbitrary such predicate",
+    "modelled, not verified: serde_json's string escaping (also what miniserde and serde-lite write for a String), "
+    "FromToStringCodec and FromToBytesCodec<String> (Script.json_string / encode), compared with the real codecs on every "
+    "resource case; the base64 engine (STANDARD_NO_PAD) is builder C13's model ServerFn.ErrorCodec.b64_encode/b64_decode "
+    "(imported, with its round-trip proof), here compared with the real engine through IntoEncodedString for Vec<u8> on every "
+    "binary-codec case incl. all block-size boundaries, for UTF-8 and for arbitrary bytes",
+    "compared, not proved: what an <ErrorBoundary/> amounts to at the level of the context (Script.expand: one id for the "
+    "boundary at construction, children built depth first, one id + register_error per thrown error in rendering order) is a "
+    "transcription of leptos/src/error_boundary.rs, diffed against the real component on every boundary case; the theorems "
+    "about ids and chunks hold for the expanded scripts because they hold for all scripts",
+    "judged by the oracle only (outside the model): RkyvCodec's archive bytes, the nonce variant of build_response, the waker "
+    "contract of the stream, take_errors(), await_deferred()",
     "browser side is a model: ECMAScript string-literal grammar (ES2019 12.8.4 + Annex B.1.2, sloppy mode) transcribed "
     "in Script.js_step, and independently in gen/jsliteral.py (cross-checked against node v20 on 6000 random "
     "literals during development); wasm-bindgen's as_string modelled as UTF-16 -> scalar values with U+FFFD for lone "
-    "surrogates; HTML script-data tokenizer states transcribed in gen/jsliteral.py (oracle) and abstracted in Coq "
-    "to 'the text contains no <' which excludes every state change",
+    "surrogates; HTML script-data tokenizer states transcribed in gen/jsliteral.py (oracle; for build_response cases run over "
+    "the real <script..>..</script> text) and in Coq as Script.script_text (first </script + delimiter, valid without <!--)",
     "which id-consuming calls the browser repeats is a harness rule: all of them, in islands mode only those made "
-    "while the server had is_hydrating = true (HydrateSharedContext itself is the real one, run natively)",
+    "while the server had is_hydrating = true (HydrateSharedContext itself is the real one, run natively: new() / new_islands())",
 ]
 ASSUMPTIONS = [
     "payloads and error messages are Rust Strings, i.e. sequences of Unicode scalar values",
     "each chunk is delivered as the body of its own <script> element of a UTF-8 document and run as a classic "
-    "(sloppy-mode) script by an ES2019+ engine (integrations/utils/src/lib.rs wraps chunks this way)",
+    "(sloppy-mode) script by an ES2019+ engine (integrations/utils/src/lib.rs wraps chunks this way: driven, modes 2/3)",
     "fewer than 2^64 ids are handed out per request (counters wrap at usize::MAX+1; theorems carry the bound)",
     "non-islands applications never call set_is_hydrating(false) (only with_no_hydration does, for island children)",
+    "a nonce is what leptos::nonce::Nonce::new() generates (URL-safe base64 of 16 random bytes)",
+    "pending_data() / consume_buffers() are called once per response (their documented contract)",
 ]
 
 NAMED = {0, 9, 10, 13, 92, 34}
@@ -94,12 +115,12 @@ def cps(s):
 def harness_exe():
     """the binary ./check has just built (same path rule as C.build_harness)"""
     import hashlib
-    tgt = "ssr"
+    tgt = "hyd"
     if C.REPO != "/repo":
-        tgt = "ssr-alt-" + hashlib.sha1(C.REPO.encode()).hexdigest()[:8]
-    exe = os.path.join(C.BUILD, "target", tgt, "release", "h_ssr")
+        tgt = "hyd-alt-" + hashlib.sha1(C.REPO.encode()).hexdigest()[:8]
+    exe = os.path.join(C.BUILD, "target", tgt, "release", "h_hyd")
     if not os.path.exists(exe):   # classification only uses Rust's std: any build will do
-        exe = os.path.join(C.BUILD, "target", "ssr", "release", "h_ssr")
+        exe = os.path.join(C.BUILD, "target", "hyd", "release", "h_hyd")
     return exe
 
 
@@ -135,6 +156,16 @@ def case_chars(script):
     return out
 
 
+def child_strings(children, out):
+    for ch in children:
+        if ch[0] in (0, 1):
+            out.append(ch[1])
+        elif ch[0] == 2:
+            out.append(ch[3])
+        elif ch[0] == 3:
+            child_strings(ch[1], out)
+
+
 def strings_of(script):
     out = []
     for cmd in script:
@@ -144,7 +175,37 @@ def strings_of(script):
             out.append(cmd[3])
         elif cmd[0] == 12:
             out.append(cmd[3])
+        elif cmd[0] == 15:
+            child_strings(cmd[2], out)
     return out
+
+
+def codecs_of(script):
+    """every encoding a script uses (also inside boundaries)"""
+    out = set()
+
+    def walk(children):
+        for ch in children:
+            if ch[0] == 2:
+                out.add(ch[2])
+            elif ch[0] == 3:
+                walk(ch[1])
+    for cmd in script:
+        if cmd[0] == 12:
+            out.add(cmd[2])
+        elif cmd[0] == 15:
+            walk(cmd[2])
+    return out
+
+
+UNMODELLED_OPS = (16, 17, 18)
+
+
+def compared(mode, script):
+    """is the case inside what the Coq model transcribes? (mode 3: random nonce; codec 5: rkyv's
+    archive format; ops 16-18: wakers, take_errors, await_deferred) — the rest is judged by the
+    oracle alone"""
+    return mode != 3 and 5 not in codecs_of(script) and not any(c[0] in UNMODELLED_OPS for c in script)
 
 
 def finish(mode, script, kind):
@@ -153,7 +214,7 @@ def finish(mode, script, kind):
         chars.update(s)
     cls = classify_chars(chars)
     escset = sorted(c for c in chars if cls[c] == 1)
-    return dict(case=[1, mode, escset, script], kind=kind, compare=True)
+    return dict(case=[1, mode, escset, script], kind=kind, compare=compared(mode, script))
 
 
 def gen_payload(rng):
@@ -203,23 +264,199 @@ def sized_text(rng, nbytes):
     return "".join(out)
 
 
+MODELLED_CODECS = [0, 1, 2, 3, 4, 6]     # rkyv (5) is judged by the oracle alone
+
+
+def res_cmd(rng, payload, codec=None, kind=None):
+    """(12 kind codec text variant): any resource kind, any encoding, any constructor"""
+    if codec is None:
+        codec = 5 if rng.random() < 0.04 else rng.choice([0, 0, 1, 1, 2, 3, 4, 6])
+    if kind is None:
+        kind = rng.choice([0, 1, 2])
+    return [12, kind, codec, cps(payload), rng.randint(0, 15)]
+
+
 def gen_resource(rng):
     s = text(rng, 10)
-    script = [[12, rng.choice([0, 1, 2]), rng.choice([0, 1, 2]), cps(s)]]
+    script = [res_cmd(rng, s)]
     if rng.random() < 0.3:
         script = [[0]] + script
-    return finish(0, script, "resource")
+    return finish(4 if rng.random() < 0.1 else 0, script, "resource")
 
 
 def gen_sized(rng, nbytes=None):
     """every encoding at the size boundaries of its encoder (base64 groups, block sizes)"""
     n = rng.choice(SIZES) if nbytes is None else nbytes
-    codec = rng.choice([2, 2, 2, 0, 1])
-    kind = rng.choice([0, 1, 2])
-    script = [[12, kind, codec, cps(sized_text(rng, n))]]
+    codec = rng.choice([2, 2, 6, 6, 5, 0, 1, 3, 4])
+    script = [res_cmd(rng, sized_payload(rng, n, codec), codec)]
     if rng.random() < 0.3:
-        script.append([12, rng.choice([0, 1, 2]), 2, cps(sized_text(rng, rng.choice(SIZES[:40])))])
-    return finish(rng.choice([0, 0, 1]) if False else 0, script, "sized")
+        c2 = rng.choice([2, 6, 5])
+        script.append(res_cmd(rng, sized_payload(rng, rng.choice(SIZES[:40]), c2), c2))
+    return finish(0, script, "sized")
+
+
+def sized_payload(rng, nbytes, codec):
+    if codec == 6:
+        # arbitrary bytes (one code point per byte): runs of 0xFF / 0x00, random, UTF-8 look-alikes
+        r = rng.random()
+        if r < 0.2:
+            return "".join(chr(rng.choice([0xFF, 0xFE, 0x00, 0x80, 0xC0])) for _ in range(nbytes))
+        return "".join(chr(rng.randint(0, 255)) for _ in range(nbytes))
+    return sized_text(rng, nbytes)
+
+
+def gen_children(rng, depth, budget):
+    """children of an <ErrorBoundary/>: Ok / Err views, resources, nested boundaries"""
+    out = []
+    for _ in range(rng.randint(0, 4)):
+        if budget[0] <= 0:
+            break
+        budget[0] -= 1
+        r = rng.random()
+        if r < 0.15:
+            out.append([0, cps(text(rng, 4))])
+        elif r < 0.6:
+            out.append([1, cps(text(rng, 6))])
+        elif r < 0.8:
+            c = res_cmd(rng, text(rng, 5))
+            out.append([2] + c[1:])
+        elif depth < 3:
+            out.append([3, gen_children(rng, depth + 1, budget)])
+        else:
+            out.append([1, cps(text(rng, 6))])
+    return out
+
+
+def count_gates(cmd):
+    """futures a command adds to the case-controlled ones"""
+    if cmd[0] == 2:
+        return 1
+    if cmd[0] == 12:
+        return 0 if cmd[1] == 2 else 1
+    if cmd[0] == 15:
+        n = [0]
+
+        def walk(children):
+            for ch in children:
+                if ch[0] == 2 and ch[1] != 2:
+                    n[0] += 1
+                elif ch[0] == 3:
+                    walk(ch[1])
+        walk(cmd[2])
+        return n[0]
+    return 0
+
+
+def gen_boundary(rng):
+    """real <ErrorBoundary/>s (nested, with throwing children and resources created inside),
+    between other id consumers, in hydrated and non-hydrated regions; errors also thrown after
+    the stream has started; every completion order"""
+    mode = rng.choice([0, 0, 1, 4])
+    script = []
+    n_gates = 0
+    started = False
+    hyd = mode != 1
+    for _ in range(rng.randint(1, 4)):
+        r = rng.random()
+        if mode == 1 and r < 0.3:
+            hyd = not hyd if rng.random() < 0.7 else hyd
+            script.append([1, int(hyd)])
+        elif r < 0.65:
+            script.append([15, rng.choice([0, 1, 2]), gen_children(rng, 0, [rng.randint(1, 8)])])
+        elif r < 0.8:
+            script.append(res_cmd(rng, text(rng, 5)))
+        elif r < 0.9:
+            script.append([0])
+        else:
+            if not started:
+                script.append([6])
+                started = True
+            script.append([8])
+        n_gates += count_gates(script[-1])
+        if n_gates and rng.random() < 0.2:
+            script.append([7, rng.randint(0, n_gates - 1)])
+    order = list(range(n_gates))
+    rng.shuffle(order)
+    for k in order:
+        if rng.random() < 0.8:
+            script.append([7, k])
+            if started and rng.random() < 0.5:
+                script.append([8])
+    return finish(mode, script, "boundary")
+
+
+def gen_response(rng):
+    """a session against the context, owner and <script> wrapping of the real build_response
+    (mode 2; mode 3: with a nonce in the start tag)"""
+    it = gen_session(rng) if rng.random() < 0.6 else rng.choice([gen_payload, gen_error, gen_resource])(rng)
+    case = it["case"]
+    if case[1] != 0:
+        case[1] = 0
+        case[3] = [c for c in case[3] if c[0] != 1]
+    mode = 2 if rng.random() < 0.7 else 3
+    return dict(case=[1, mode, case[2], case[3]], kind="response", compare=compared(mode, case[3]))
+
+
+def gen_wake(rng):
+    """the stream contract: a value completing after poll_next returned Pending must wake the
+    waker of that (latest) poll; also take_errors() and await_deferred() between polls"""
+    script = []
+    n_gates = 0
+    for _ in range(rng.randint(1, 4)):
+        r = rng.random()
+        if r < 0.5:
+            script.append([0])
+            script.append([2, [1, sum(1 for c in script if c[0] == 0) - 1], cps(text(rng, 4))])
+        else:
+            script.append(res_cmd(rng, text(rng, 4), kind=rng.choice([0, 1])))
+        n_gates += count_gates(script[-1])
+    if rng.random() < 0.3:
+        script.append([3, [0, rng.randint(0, 3)], [0, rng.randint(0, 9)], cps(text(rng, 4))])
+        if rng.random() < 0.5:
+            script.append([17])
+    if rng.random() < 0.3:
+        script.append([18])
+    script += [[6], [8]]
+    order = list(range(n_gates))
+    rng.shuffle(order)
+    for k in order:
+        for _ in range(rng.choice([1, 1, 2, 3])):
+            script.append([8])      # re-polls: each with a new waker, only the latest counts
+        script.append([16])
+        script.append([7, k])
+        script.append([16])
+        if rng.random() < 0.3:
+            script.append([3, [0, rng.randint(0, 3)], [0, rng.randint(0, 9)], cps(text(rng, 4))])
+        if rng.random() < 0.2:
+            script.append([17])
+        if rng.random() < 0.2:
+            script.append([18])
+    return finish(0, script, "wake")
+
+
+def gen_many(rng):
+    """many values in one response (the property quantifies over all numbers of resources)"""
+    script = []
+    n = rng.randint(20, 120)
+    n_gates = 0
+    for _ in range(n):
+        r = rng.random()
+        if r < 0.7:
+            script.append(res_cmd(rng, text(rng, 3), codec=rng.choice(MODELLED_CODECS)))
+        elif r < 0.9:
+            script.append([0])
+            script.append([2, [1, sum(1 for c in script if c[0] == 0) - 1], cps(text(rng, 3))])
+        else:
+            script.append([3, [0, rng.randint(0, 200)], [0, rng.randint(0, 200)], cps(text(rng, 3))])
+        n_gates += count_gates(script[-1])
+    order = list(range(n_gates))
+    rng.shuffle(order)
+    script.append([6])
+    for k in order:
+        script.append([7, k])
+        if rng.random() < 0.15:
+            script.append([8])
+    return finish(0, script, "many")
 
 
 def gen_session(rng, ids_focus=False):
@@ -244,7 +481,7 @@ def gen_session(rng, ids_focus=False):
                 hyd = rng.random() < 0.6
                 script.append([1, int(hyd)])
         elif r < 0.35:
-            script.append([12, rng.choice([0, 1, 2]), rng.choice([0, 1, 2]), cps(text(rng, 6))])
+            script.append(res_cmd(rng, text(rng, 6)))
             if script[-1][1] != 2:
                 n_gates += 1
         elif r < 0.55:
@@ -309,7 +546,7 @@ def gen_consume(rng):
             n_gates += 1
         elif r < 0.85:
             kind = rng.choice([0, 1, 2])
-            script.append([12, kind, rng.choice([0, 1, 2]), cps(text(rng, 5))])
+            script.append(res_cmd(rng, text(rng, 5), kind=kind))
             if kind != 2:
                 n_gates += 1
         else:
@@ -332,15 +569,25 @@ def gen_consume(rng):
 
 
 def generate(rng, tier):
-    n = 5000 if tier == "quick" else 100000
+    n = 4200 if tier == "quick" else 100000
     batch = []
-    # every size boundary once with the binary encoding, then a random sample of sizes
+    # every size boundary once with each binary encoding, then a random sample of sizes
     for nb in SIZES:
-        batch.append(lambda nb=nb: finish(0, [[12, rng.choice([0, 1, 2]), 2, cps(sized_text(rng, nb))]], "sized"))
+        for codec in (2, 6):
+            batch.append(lambda nb=nb, codec=codec: finish(
+                0, [res_cmd(rng, sized_payload(rng, nb, codec), codec)], "sized"))
     for i in range(60 if tier == "quick" else 600):
         batch.append(lambda: gen_sized(rng))
     for i in range(n // 10):
         batch.append(lambda: gen_consume(rng))
+    for i in range(n // 8):
+        batch.append(lambda: gen_boundary(rng))
+    for i in range(n // 12):
+        batch.append(lambda: gen_response(rng))
+    for i in range(n // 14):
+        batch.append(lambda: gen_wake(rng))
+    for i in range(12 if tier == "quick" else 200):
+        batch.append(lambda: gen_many(rng))
     for i in range(n):
         r = rng.random()
         if r < 0.30:
@@ -354,7 +601,7 @@ def generate(rng, tier):
         else:
             batch.append(lambda: gen_session(rng, True))
     # classify the whole alphabet once (one harness call) before building cases
-    classify_chars({ord(c) for p in PIECES for c in p} | set(range(0, 0x80)))
+    classify_chars({ord(c) for p in PIECES for c in p} | set(range(0, 0x100)))
     for f in batch:
         yield f()
 
@@ -368,6 +615,48 @@ def js_num(n):
     return float(n)
 
 
+import re
+
+START_TAG = re.compile(r'<script( nonce="[A-Za-z0-9_-]+")?>')
+
+
+def response_script(html):
+    """a chunk as build_response sends it: one complete <script> element. Returns
+    (script text, problem)"""
+    m = START_TAG.match(html)
+    if not m:
+        return "", "does not start with a <script> start tag"
+    rest = J.preprocess(html[m.end():])
+    src, end, flags = J.script_content(rest)
+    if end is None:
+        return src, "the script element is never closed (%s)" % ", ".join(sorted(flags) or ["eof"])
+    if rest[end:] != "</script>":
+        return src, "the script element ends early, at offset %d of %d" % (end, len(rest) - 9)
+    return src, None
+
+
+def decode_wire(codec, got, payload):
+    """from-scratch decoding of the string the browser reads; returns (value, problem)"""
+    if codec in (0, 3, 4):
+        try:
+            return json.loads(got), None
+        except Exception as ex:
+            return None, "JSON payload does not parse in the browser (%s): %r" % (ex, got[:80])
+    if codec in (2, 5, 6):
+        val = b64_nopad_decode(got)
+        if val is None:
+            return None, "the browser reads %r..., which is not unpadded standard base64 (%d chars)" % (got[:40], len(got))
+        if codec == 5:
+            return payload, None      # the archive format is rkyv's business; the bytes arrive (wire check)
+        if codec == 6:
+            return "".join(chr(b) for b in val), None
+        try:
+            return val.decode("utf-8"), None
+        except UnicodeDecodeError:
+            return None, "base64 payload decodes to bytes that are not the value's UTF-8"
+    return got, None
+
+
 def oracle(item, impl):
     case = item["case"]
     if case[0] != 1:
@@ -375,11 +664,13 @@ def oracle(item, impl):
     if isinstance(impl, str):
         return "harness error / panic: " + impl
     mode, script = case[1], case[3]
+    islands = mode == 1
+    wrapped = mode in (2, 3)
     log = impl
     li = 0
-    hyd = not mode
+    hyd = not islands
     ids = []
-    client_expect = []      # per browser-side next_id call: ('id', server id) | ('res', codec, payload)
+    client_expect = []      # per browser-side next_id call: ('id', server id) | ('res', codec, payload) | ('boundary', n)
     writes = {}             # id -> list of payloads expected under it
     errors = []             # (b, e, msg, must_deliver)
     sealed = set()
@@ -389,6 +680,13 @@ def oracle(item, impl):
     n_chunks = [0]
     by_consume = {}         # id -> strings that left the context through consume_buffers()
     consumed = [False]
+    taken = []              # errors that left through take_errors()
+    boundaries = []         # real <ErrorBoundary/>s: dict(sid=, repeated=, thrown=[(e, msg)])
+    n_gates = [0]
+    in_buffer = set()       # futures handed to write_async
+    done = set()
+    armed = set()           # futures that were pending in the buffer when the latest poll returned Pending
+    must_wake = [False]
 
     def resolve(src):
         if src[0] == 1:
@@ -407,11 +705,18 @@ def oracle(item, impl):
         return e
 
     def on_poll_entry(e):
+        must_wake[0] = False
+        armed.clear()
+        if e[0] == 8 and e[1] == 1:
+            armed.update(k for k in in_buffer if k not in done)
         if e[0] == 8 and e[1] == 0:
             chunk = s_of(e[2])
             k = n_chunks[0]
             n_chunks[0] += 1
-            src, prob = J.script_element_text(chunk)
+            if wrapped:
+                src, prob = response_script(chunk)
+            else:
+                src, prob = J.script_element_text(chunk)
             if prob:
                 problems.append("chunk %d %r: %s" % (k, chunk[:80], prob))
             try:
@@ -419,17 +724,55 @@ def oracle(item, impl):
             except J.JSError as ex:
                 problems.append("chunk %d %r is not a valid script: %s" % (k, chunk[:80], ex))
 
+    def next_id_entry():
+        e = take_entry()
+        if e[0] != 0:
+            raise ValueError("expected an id entry, found %r" % (e[:1],))
+        i = int(s_of(e[1]))
+        ids.append(i)
+        return i
+
+    def resource(kind, codec, payload):
+        e = take_entry()
+        if e[0] != 13 or e[1] != 1:
+            problems.append("codec %d, kind %d: the real browser-side construction of the resource, reading the string "
+                            "the server-side codec produced for the %d-byte value, does not hydrate with that value"
+                            % (codec, kind, len(s_of(payload).encode("utf-8"))))
+        wire = s_of(e[2]) if len(e) > 2 else None
+        if kind != 2:
+            if hyd:
+                in_buffer.add(n_gates[0])
+            n_gates[0] += 1
+        if not islands or hyd:
+            client_expect.append(("res", codec, s_of(payload), wire) if not (stream_over() or consumed[0]) else ("late",))
+
+    def boundary(children):
+        """construction: the boundary's id, then its children's; returns the rendering walk"""
+        b = dict(sid=next_id_entry(), repeated=(not islands or hyd), thrown=[])
+        boundaries.append(b)
+        if b["repeated"]:
+            client_expect.append(("boundary", len(boundaries) - 1))
+        walk = []
+        for ch in children:
+            if ch[0] == 1:
+                walk.append((b, ch[1]))
+            elif ch[0] == 2:
+                resource(ch[1], ch[2], ch[3])
+            elif ch[0] == 3:
+                walk.extend(boundary(ch[1]))
+        return walk
+
     for cmd in script:
         op = cmd[0]
         if op == 0:
-            e = take_entry()
-            i = int(s_of(e[1]))
-            ids.append(i)
-            if not mode or hyd:
+            i = next_id_entry()
+            if not islands or hyd:
                 client_expect.append(("id", i))
         elif op == 1:
             hyd = bool(cmd[1])
         elif op == 2:
+            in_buffer.add(n_gates[0])
+            n_gates[0] += 1
             if not stream_over() and not consumed[0]:
                 writes.setdefault(resolve(cmd[1]), []).append(s_of(cmd[2]))
         elif op == 3:
@@ -438,23 +781,23 @@ def oracle(item, impl):
             sealed.add(resolve(cmd[1]))
         elif op == 5:
             incompletes.append((resolve(cmd[1]), not stream_over()))
+        elif op == 7:
+            k = cmd[1]
+            if k < n_gates[0] and k not in done:
+                if k in armed:
+                    must_wake[0] = True
+                done.add(k)
         elif op == 8:
             on_poll_entry(take_entry())
-        elif op in (9, 10):
+        elif op in (9, 10, 18):
             take_entry()
         elif op == 12:
-            e = take_entry()
-            if e[0] != 13 or e[1] != 1:
-                problems.append("codec %d, kind %d: the real browser-side construction of the resource, reading the string "
-                                "the server-side codec produced for the %d-byte value, does not hydrate with that value"
-                                % (cmd[2], cmd[1], len(s_of(cmd[3]).encode("utf-8"))))
-            wire = s_of(e[2]) if len(e) > 2 else None
-            if not mode or hyd:
-                client_expect.append(("res", cmd[2], s_of(cmd[3]), wire) if not (stream_over() or consumed[0]) else ("late",))
+            resource(cmd[1], cmd[2], cmd[3])
         elif op == 14:
             # the futures completed while consume_buffers() was pending, then its result
             e = take_entry()
             while e[0] == 7:
+                done.add(e[1])
                 e = take_entry()
             if e[0] != 14:
                 problems.append("consume_buffers did not finish (marker %r)" % (e[0],))
@@ -462,6 +805,30 @@ def oracle(item, impl):
                 for pid, pdata in e[1]:
                     by_consume.setdefault(int(s_of(pid)), []).append(s_of(pdata))
             consumed[0] = True
+            in_buffer.clear()
+        elif op == 15:
+            if log[li:li + 1] and log[li][0] == 95:
+                problems.append("<ErrorBoundary/> consumed %d ids where its construction and its thrown errors account for %d"
+                                % (log[li][2], log[li][1]))
+                break
+            over = stream_over()
+            for b, msg in boundary(cmd[2]):
+                # thrown while rendering: the hook takes an id for the error (the browser's hook
+                # does too when it re-throws) and registers it under its boundary
+                e_id = next_id_entry()
+                if b["repeated"]:
+                    client_expect.append(("id", e_id))
+                b["thrown"].append((e_id, s_of(msg)))
+                errors.append((b["sid"], e_id, s_of(msg), not over))
+        elif op == 16:
+            e = take_entry()
+            if must_wake[0] and not e[1]:
+                problems.append("a value completed after poll_next returned Pending, but the waker of that poll was "
+                                "not woken: the response would never continue, the value never reach the browser")
+        elif op == 17:
+            e = take_entry()
+            for b, i, m in e[1]:
+                taken.append((js_num(int(s_of(b))), js_num(int(s_of(i))), s_of(m)))
     client_ids = None
     for e in log[li:]:
         if e[0] == 8:
@@ -496,6 +863,12 @@ def oracle(item, impl):
         if exp[0] == "id":
             if exp[1] != cid:
                 return "id mismatch: the server handed out %d where the browser hands out %d" % (exp[1], cid)
+        elif exp[0] == "boundary":
+            b = boundaries[exp[1]]
+            b["cid"] = cid
+            if b["sid"] != cid:
+                return ("boundary id mismatch: the server's <ErrorBoundary/> registers its errors under %d, the browser's "
+                        "asks for the errors of %d" % (b["sid"], cid))
         elif exp[0] == "res":
             got = read(cid)
             if got is None:
@@ -503,23 +876,12 @@ def oracle(item, impl):
             if exp[3] is not None and got != exp[3]:
                 return ("id %d: the browser reads %r..., the codec handed over %r... (%d vs %d chars)"
                         % (cid, got[:60], exp[3][:60], len(got), len(exp[3])))
-            if exp[1] == 0:
-                try:
-                    val = json.loads(got)
-                except Exception as ex:
-                    return "id %d: JSON payload does not parse in the browser (%s): %r" % (cid, ex, got[:80])
-            elif exp[1] == 2:
-                val = b64_nopad_decode(got)
-                if val is None:
-                    return "id %d: the browser reads %r..., which is not unpadded standard base64 (%d chars)" % (cid, got[:40], len(got))
-                try:
-                    val = val.decode("utf-8")
-                except UnicodeDecodeError:
-                    return "id %d: base64 payload decodes to bytes that are not the value's UTF-8" % cid
-            else:
-                val = got
-            if val != exp[2]:
-                return "id %d: browser reads %r, server wrote %r" % (cid, val[:80] if isinstance(val, str) else val, exp[2][:80])
+            val, prob = decode_wire(exp[1], got, exp[2])
+            if prob:
+                return "id %d: %s" % (cid, prob)
+            want = "".join(chr(ord(c) % 256) for c in exp[2]) if exp[1] == 6 else exp[2]
+            if val != want:
+                return "id %d: browser reads %r, server wrote %r" % (cid, val[:80] if isinstance(val, str) else val, want[:80])
     for i, payloads in writes.items():
         got = read(i)
         if got is None:
@@ -531,23 +893,37 @@ def oracle(item, impl):
     ser = g.get("__SERIALIZED_ERRORS")
     if not isinstance(ser, J.JSArray):
         return "__SERIALIZED_ERRORS is not an array after the scripts ran"
-    delivered = []
+    in_scripts = []
     for t in ser.items():
         if not isinstance(t, J.JSArray) or t.length != 3:
             return "malformed __SERIALIZED_ERRORS entry"
         b, e, m = t.items()
         if not isinstance(b, float) or not isinstance(e, float) or not isinstance(m, J.JSString):
             return "malformed __SERIALIZED_ERRORS entry (types)"
-        delivered.append((b, e, m.rust()))
+        in_scripts.append((b, e, m.rust()))
+    delivered = in_scripts + taken        # take_errors() is the other way errors leave the context
     pool = [(js_num(b), js_num(e), m) for b, e, m, _ in errors]
     for d in delivered:
         if d in pool:
             pool.remove(d)
         else:
-            return "browser reads an error that was never registered: %r" % (d,)
+            return "browser reads an error that was never registered (or reads it twice): %r" % (d,)
     for b, e, m, must in errors:
         if must and b not in sealed and (js_num(b), js_num(e), m) not in delivered:
             return "error (%d, %d, %r) never reaches the browser" % (b, e, m[:80])
+    # what the browser's <ErrorBoundary/> finds under its id is what was registered for that very
+    # boundary: thrown in it, or registered under its id by hand — never the errors of another one
+    for bd in boundaries:
+        if "cid" not in bd:
+            continue
+        own = [(js_num(bd["sid"]), js_num(e), m) for e, m in bd["thrown"]]
+        own += [(js_num(b), js_num(e), m) for b, e, m, _ in errors
+                if b == bd["sid"] and (e, m) not in bd["thrown"]]
+        foreign = [(js_num(o["sid"]), js_num(e), m) for o in boundaries if o is not bd for e, m in o["thrown"]]
+        for d in in_scripts:
+            if d[0] == js_num(bd["cid"]) and d in foreign and own.count(d) < in_scripts.count(d):
+                return ("the browser's <ErrorBoundary/> with id %d reads the error %r, which was thrown in a different "
+                        "boundary" % (bd["cid"], d))
 
     inc = g.get("__INCOMPLETE_CHUNKS")
     if not isinstance(inc, J.JSArray):
@@ -563,22 +939,51 @@ def oracle(item, impl):
     return None
 
 
+CODECS = (0, 1, 2, 3, 4, 5, 6)
+
+
+def valid_children(children, depth=0):
+    if not isinstance(children, list) or depth > 6:
+        return False
+    for ch in children:
+        if not isinstance(ch, list) or not ch:
+            return False
+        if ch[0] in (0, 1):
+            if len(ch) != 2 or not isinstance(ch[1], list):
+                return False
+        elif ch[0] == 2:
+            if len(ch) != 5 or ch[1] not in (0, 1, 2) or ch[2] not in CODECS or not isinstance(ch[3], list) \
+                    or not (isinstance(ch[4], int) and 0 <= ch[4] < 16):
+                return False
+        elif ch[0] == 3:
+            if len(ch) != 2 or not valid_children(ch[1], depth + 1):
+                return False
+        else:
+            return False
+    return True
+
+
 def valid_case(item):
     """generator preconditions (the shrinker keeps only candidates satisfying them): well-formed
     commands over scalar-value strings, the Debug-escape table of the case covers its strings
-    exactly as real Rust classifies them, and a non-islands script never switches hydration off"""
+    exactly as real Rust classifies them, only an islands script switches hydration off, the
+    build_response modes use neither consume_buffers() nor <ErrorBoundary/> (they need the bare
+    context), and the compare flag says whether the case is inside the model"""
     case = item["case"]
     try:
-        if case[0] != 1 or len(case) != 4 or case[1] not in (0, 1):
+        if case[0] != 1 or len(case) != 4 or case[1] not in (0, 1, 2, 3, 4):
             return False
         mode, escset, script = case[1], case[2], case[3]
-        arity = {0: 1, 1: 2, 2: 3, 3: 4, 4: 2, 5: 2, 6: 1, 7: 2, 8: 1, 9: 2, 10: 2, 12: 4, 14: 2}
+        arity = {0: (1,), 1: (2,), 2: (3,), 3: (4,), 4: (2,), 5: (2,), 6: (1,), 7: (2,), 8: (1,), 9: (2,), 10: (2,),
+                 12: (4, 5), 14: (2,), 15: (3,), 16: (1,), 17: (1,), 18: (1,)}
         chars = set()
         for cmd in script:
-            if not isinstance(cmd, list) or not cmd or cmd[0] not in arity or len(cmd) != arity[cmd[0]]:
+            if not isinstance(cmd, list) or not cmd or cmd[0] not in arity or len(cmd) not in arity[cmd[0]]:
                 return False
             op = cmd[0]
-            if op == 1 and (cmd[1] not in (0, 1) or (mode == 0 and cmd[1] == 0)):
+            if op == 1 and (cmd[1] not in (0, 1) or (mode != 1 and cmd[1] == 0)):
+                return False
+            if op in (14, 15) and mode in (2, 3):
                 return False
             srcs = {2: [1], 3: [1, 2], 4: [1], 5: [1], 9: [1], 10: [1]}.get(op, [])
             for k in srcs:
@@ -589,8 +994,13 @@ def valid_case(item):
                 return False
             if op == 7 and not (isinstance(cmd[1], int) and 0 <= cmd[1] < 1000):
                 return False
-            if op == 12 and (cmd[1] not in (0, 1, 2) or cmd[2] not in (0, 1, 2)):
+            if op == 12 and (cmd[1] not in (0, 1, 2) or cmd[2] not in CODECS
+                             or (len(cmd) == 5 and not (isinstance(cmd[4], int) and 0 <= cmd[4] < 16))):
                 return False
+            if op == 15 and (cmd[1] not in (0, 1, 2) or not valid_children(cmd[2])):
+                return False
+        if bool(item.get("compare", True)) != compared(mode, script):
+            return False
         for s in strings_of(script):
             if not isinstance(s, list):
                 return False
@@ -647,15 +1057,54 @@ def classify(item, impl, model):
     return None
 
 
+CODEC_NAMES = {0: "json", 1: "str", 2: "bytes", 3: "miniserde", 4: "serde-lite", 5: "rkyv", 6: "raw-bytes"}
+KIND_NAMES = {0: "Resource", 1: "OnceResource", 2: "SharedValue"}
+
+
+def describe_res(kind, codec, payload, variant):
+    v = []
+    if variant & 4:
+        v.append("Arc")
+    if variant & 2:
+        v.append("named-ctor")
+    if variant & 1:
+        v.append("blocking")
+    if variant & 8:
+        v.append("arena-in-browser")
+    return "%s<%s>%s(%r)" % (KIND_NAMES.get(kind, "?"), CODEC_NAMES.get(codec, "?"),
+                             ("[" + ",".join(v) + "]") if v else "", s_of(payload)[:60])
+
+
+def describe_children(children):
+    out = []
+    for ch in children:
+        if ch[0] == 0:
+            out.append("Ok(%r)" % s_of(ch[1]))
+        elif ch[0] == 1:
+            out.append("Err(%r)" % s_of(ch[1]))
+        elif ch[0] == 2:
+            out.append(describe_res(ch[1], ch[2], ch[3], ch[4]))
+        else:
+            out.append("<ErrorBoundary>%s</ErrorBoundary>" % describe_children(ch[1]))
+    return " ".join(out)
+
+
 def describe(it):
     case = it["case"]
     if case[0] != 1:
         return "debug classes of %r" % s_of(case[1])
     names = {0: "next_id", 1: "set_is_hydrating", 2: "write_async", 3: "register_error", 4: "seal_errors",
              5: "set_incomplete_chunk", 6: "pending_data", 7: "complete", 8: "poll", 9: "errors", 10: "get_incomplete_chunk",
-             12: "resource", 14: "consume_buffers"}
+             12: "resource", 14: "consume_buffers", 16: "was-the-latest-waker-woken?", 17: "take_errors", 18: "await_deferred"}
     out = []
     for cmd in case[3]:
+        if cmd[0] == 12:
+            out.append(describe_res(cmd[1], cmd[2], cmd[3], cmd[4] if len(cmd) > 4 else 0))
+            continue
+        if cmd[0] == 15:
+            out.append("render[%s](<ErrorBoundary>%s</ErrorBoundary>)"
+                       % (["to_html", "in-order", "out-of-order"][cmd[1]], describe_children(cmd[2])))
+            continue
         args = []
         for a in cmd[1:]:
             if isinstance(a, list) and len(a) == 2 and cmd[0] in (2, 3, 4, 5, 9, 10) and a[0] in (0, 1) and not (cmd[0] in (2,) and a is cmd[2]):
@@ -665,7 +1114,8 @@ def describe(it):
             else:
                 args.append(str(a))
         out.append("%s(%s)" % (names.get(cmd[0], "?"), ", ".join(args)))
-    return ("islands: " if case[1] else "") + "; ".join(out)
+    mode = {0: "", 1: "islands: ", 2: "build_response: ", 3: "build_response+nonce: ", 4: "SsrSharedContext::default(): "}[case[1]]
+    return mode + "; ".join(out)
 
 
 def coverage_extra(results):
@@ -688,9 +1138,11 @@ LEVEL_TEXT = ("Coq proofs, for all strings of Unicode scalar values and every De
               "the browser hands them out, disjoint from the ids of non-hydrated regions \u2014 about an executable Gallina "
               "transcription of SsrSharedContext/AsyncDataStream/js_string and HydrateSharedContext::next_id; tied to "
               "/repo by running that model (extracted) and the real types on the same thousands of scripted sessions "
-              "(including real Resource/OnceResource/SharedValue with both string codecs) every run, plus an independent "
-              "Python HTML-script-data tokenizer + JavaScript interpreter as oracle.")
+              "(including real Resource/OnceResource/SharedValue through every constructor and encoding, real <ErrorBoundary/> "
+              "trees and the real build_response wrapping, for which the script element is proved to end exactly at the appended "
+              "end tag) every run, plus an independent Python HTML-script-data tokenizer + JavaScript interpreter as oracle.")
 LEVEL_NOTE = ("Trusted: Coq kernel, extraction + OCaml driver, the Rust harness. Modelled, not verified: Rust's Unicode "
               "escape tables (passed in per case from the real formatter; theorems hold for any table), serde_json string "
-              "escaping, the JS literal grammar and the UTF-16 -> Rust conversion on the browser side. No axioms.")
+              "escaping, the JS literal grammar and the UTF-16 -> Rust conversion on the browser side; compared, not proved: the "
+              "context-level reading of <ErrorBoundary/>; oracle only: rkyv bytes, nonce start tag, waker contract, take_errors. No axioms.")
 TECHNIQUE = "Coq proof (induction over strings, sessions and event traces) + differential correspondence of the extracted model with the Rust code"
